@@ -62,6 +62,7 @@ type recStore struct {
 	name  string
 	init  mapState
 	trace *[]c11Out
+	fail  *bool // the next WriteState call returns an error (after recording what it was handed)
 }
 
 func (s recStore) ReadState(*http.Request) (authboss.ClientState, error) { return s.init, nil }
@@ -78,8 +79,14 @@ func (s recStore) WriteState(w http.ResponseWriter, st authboss.ClientState, evs
 		}
 	}
 	*s.trace = append(*s.trace, o)
+	if s.fail != nil && *s.fail {
+		*s.fail = false
+		return errStoreDown
+	}
 	return nil
 }
+
+var errStoreDown = fmt.Errorf("store unavailable")
 
 type recWriter struct {
 	hdr   http.Header
@@ -132,6 +139,8 @@ func c11Gen(rng *rand.Rand, maxOps int) (sess0, cook0 map[string]string, ops []c
 			wprob = 30
 		}
 		switch {
+		case rng.Intn(100) < 3:
+			ops = append(ops, c11Op{T: "fail", S: []string{"sess", "cook"}[rng.Intn(2)]})
 		case r < wprob/2:
 			ops = append(ops, c11Op{T: "hdr", Code: []int{200, 302, 307, 401, 404, 500, 100, 103, 204, 304}[rng.Intn(10)], Depth: d})
 		case r < wprob:
@@ -178,8 +187,9 @@ func unhx(s string) string {
 // primitive operations they are documented to perform, which is what the model sees.
 func c11Run(sess0, cook0 map[string]string, ops []c11Op) (expanded []c11Op, trace []c11Out) {
 	ab := authboss.New()
-	ab.Config.Storage.SessionState = recStore{"sess", mapState(sess0), &trace}
-	ab.Config.Storage.CookieState = recStore{"cook", mapState(cook0), &trace}
+	failS, failC := false, false
+	ab.Config.Storage.SessionState = recStore{"sess", mapState(sess0), &trace, &failS}
+	ab.Config.Storage.CookieState = recStore{"cook", mapState(cook0), &trace, &failC}
 	under := &recWriter{hdr: http.Header{}, trace: &trace}
 	csrw := ab.NewResponse(under)
 	req := httptest.NewRequest("GET", "/", nil)
@@ -212,11 +222,27 @@ func c11Run(sess0, cook0 map[string]string, ops []c11Op) (expanded []c11Op, trac
 	for _, op := range ops {
 		w := chain[op.Depth]
 		switch op.T {
+		case "fail": // the next WriteState that reaches this store fails
+			if op.S == "sess" {
+				failS = true
+			} else {
+				failC = true
+			}
+			expanded = append(expanded, op)
 		case "hdr":
-			w.WriteHeader(op.Code)
+			func() {
+				defer func() {
+					if p := recover(); p != nil { // WriteHeader has no error result: the flush error is a panic
+						trace = append(trace, c11Out{T: "panic"})
+					}
+				}()
+				w.WriteHeader(op.Code)
+			}()
 			expanded = append(expanded, op)
 		case "body":
-			w.Write([]byte(unhx(op.Body)))
+			if _, err := w.Write([]byte(unhx(op.Body))); err != nil {
+				trace = append(trace, c11Out{T: "err"})
+			}
 			expanded = append(expanded, op)
 		case "get":
 			trace = append(trace, get(op.S, unhx(op.Key)))
@@ -338,6 +364,7 @@ func init() {
 					{T: "ev", S: "cook", Ev: &c11Ev{K: "del", Key: hx("rm")}},
 					{T: "hdr", Code: 302},
 					{T: "hdr", Code: 103, Depth: 1}, // an informational status: the state goes out with it, once
+					{T: "fail", S: "cook"},          // the cookie store fails its next call (after the session store succeeded)
 					{T: "body", Body: hx("b"), Depth: 1},
 					{T: "body", Body: ""},
 					{T: "get", S: "sess", Key: hx("uid")},
